@@ -15,6 +15,13 @@ Simple(t)          == A(t, 0, <<>>, "", <<>>)
 Counted(t, n)      == A(t, n, <<>>, "", <<>>)
 PathA(t, sg)       == A(t, 0, sg, "", <<>>)
 MpA(t, fm, nl)     == A(t, 0, <<>>, fm, nl)
+(* MP_REACH with an explicit next-hop kind in field n:
+     0 = one address of the family's own AFI, 1 = one IPv6 address (RFC 8950 for the IPv4 families),
+     2 = IPv6 global + link-local *)
+MpN(fm, nl, nh)    == A("mpreach", nh, <<>>, fm, nl)
+NhKinds == {0, 1, 2}
+NhKindsOf(f) == IF f \in {"ipv4-unicast", "ipv4-multicast", "ipv4-labelled-unicast", "l3vpn-ipv4-unicast",
+                           "l3vpn-ipv4-multicast"} THEN {0, 1, 2} ELSE {0, 2}      \* kind 1 = kind 0 for IPv6 families
 Cap(c, n)          == [c |-> c, n |-> n]
 
 Shape(k, wd, attrs, nlri, params, n, name) ==
@@ -102,6 +109,13 @@ ExpVLen(a, opts) ==
     [] a.t = "unknown"     -> a.n
     [] a.t = "mpunreach"   -> 3 + NlriTotal(a, opts)                     \* RFC 4760 4
     [] a.t = "mpreach"     -> 5 + NlriTotal(a, opts)                     \* RFC 4760 3, WITHOUT next hop
+(* expected length of the MP_REACH next-hop field: (RD +) address, once per address - see NhLens in Framing *)
+NhAddrLen(f, nh) == IF FamAfi(f) = 1 /\ nh = 0 THEN 4 ELSE 16
+NhCount(nh)      == IF nh = 2 THEN 2 ELSE 1
+ExpNhLens(f, nh) ==
+  LET plain == NhCount(nh) * NhAddrLen(f, nh)
+      vpn   == NhCount(nh) * (8 + NhAddrLen(f, nh))
+  IN CASE FamSafi(f) = 128 -> {vpn} [] FamSafi(f) = 129 -> {plain, vpn} [] OTHER -> {plain}
 MinNh == 4
 MaxNh == 48
 AttrLenLo(a, opts) == LET v == ExpVLen(a, opts) + (IF a.t = "mpreach" THEN MinNh ELSE 0)
@@ -223,14 +237,14 @@ EncNlri(f, e, ap, idx) ==
 EncNlris(f, nl, ap) == SeqOfSeqs([i \in 1..Len(nl) |-> EncNlri(f, nl[i], ap, i)])
 EncSegs(sg, asz)    == SeqOfSeqs([i \in 1..Len(sg) |-> <<2, sg[i]>> \o Rep(asz * sg[i], 1)])
 
-ModelNh(f) == (IF FamAfi(f) = 1 THEN 4 ELSE 16) + (IF FamSafi(f) = 128 THEN 8 ELSE 0)
+ModelNh(f, nh) == NhCount(nh) * (NhAddrLen(f, nh) + (IF FamSafi(f) = 128 THEN 8 ELSE 0))
 
 EncValue(a, opts) ==
   CASE a.t = "aspath"    -> EncSegs(a.segs, IF opts.as2 THEN 2 ELSE 4)
     [] a.t = "as4path"   -> EncSegs(a.segs, 4)
     [] a.t = "aigp"      -> <<1, 0, 11>> \o Rep(8, 0)
-    [] a.t = "mpreach"   -> U16B(FamAfi(a.fam)) \o <<FamSafi(a.fam), ModelNh(a.fam)>>
-                            \o Rep(ModelNh(a.fam), 10) \o <<0>> \o EncNlris(a.fam, a.nl, ApOf(a.fam, opts))
+    [] a.t = "mpreach"   -> U16B(FamAfi(a.fam)) \o <<FamSafi(a.fam), ModelNh(a.fam, a.n)>>
+                            \o Rep(ModelNh(a.fam, a.n), 10) \o <<0>> \o EncNlris(a.fam, a.nl, ApOf(a.fam, opts))
     [] a.t = "mpunreach" -> U16B(FamAfi(a.fam)) \o <<FamSafi(a.fam)>> \o EncNlris(a.fam, a.nl, ApOf(a.fam, opts))
     [] OTHER             -> Rep(ExpVLen(a, opts), 7)
 
